@@ -452,9 +452,13 @@ func (b *Board) IsPseudoLegal(m move.Move) bool {
 		}
 
 		if RankBB(SeventhRank.FromPerspectiveOf(b.STM))&fromBB != 0 {
-			if m.Promo() == NoPiece {
+			// promotions are only generated for knight, bishop, rook and queen
+			if m.Promo() < Knight || m.Promo() > Queen {
 				return false
 			}
+		} else if m.Promo() != NoPiece {
+			// promotion piece on a pawn move that does not promote
+			return false
 		}
 
 		switch Abs(from.File() - to.File()) {
